@@ -16,7 +16,7 @@ pub struct Mls {
     pub shape: String,
 }
 
-const BASES: &[&str] = &["", "  ", "    ", "      ", "\t", "\t\t", " \t", "\u{3000}", "  \u{b}", "        ", "          "];
+const BASES: &[&str] = &["", "  ", "    ", "      ", "\t", "\t\t", " \t", "\u{3000}", "  \u{b}", "        ", "          ", "                                                                                "];
 const CONTENTS: &[&str] = &["text", "select *", "it's", "x", "  more indented", "\ttabbed", "a 'quoted' b", "ünï", "trailing  ", "trailing\t", "''", "end;", "// c", "{ c }", "  ", "\t", "   \t ", "\u{a0}", "a\u{a0}b", "\u{2003}\u{2003}", "\u{85}"];
 
 /// append a line ending; a lone CR directly followed by LF would read as one CRLF, so an LF
@@ -131,6 +131,12 @@ pub const CARRIERS: &[&str] = &[
     "begin\n  X := {} + {};\nend;\n",
     "begin\n  X := {}.Format([{}, Aaaaaaa, Bbbbbbbbb]);\nend;\n",
     "begin\n  Foo({}.Format([Aaaaaaa, Bbbbbbbbb, Cccccccc]), {});\nend;\n",
+    // text after the closing quotes that can be wrapped; literal as the body of a control statement
+    "begin\n  if A then\n    X := {}.Replace(Aaaaa, Bbbbbb);\nend;\n",
+    "begin\n  X := {}.Replace(Aaaaa, Bbbbbb).Trim([Cccc, Dddd]);\nend;\n",
+    // a second literal nested two and more levels below the statement that holds the first
+    "begin\n  Query.Text := {}.ForEachLine(procedure(const Line: string) begin if Line <> \'\' then Log.Add({}); end);\nend;\n",
+    "begin\n  Run({}, procedure\n    begin\n      while A do\n        Foo(procedure\n          begin\n            X := {};\n          end);\n    end);\nend;\n",
 ];
 
 /// expand a carrier with literals; returns (program text, byte offset of each literal)
